@@ -199,7 +199,7 @@ func checkC03(c *Ctx) {
 		for _, g := range gates {
 			var missing []string
 			for _, e := range exits {
-				if !g.ok(fl.At(e.Ret), e) {
+				if !g.ok(e.Facts, e) {
 					missing = append(missing, p.Pos(e.Ret.Pos()))
 				}
 			}
